@@ -186,6 +186,8 @@ def interest_c04(mask, fdk, mcode, case):
     if not premise_ok(case) or fd_any(fdk, ('guard',)) or (mask & B.SELECTED):
         return None
     fam = ('ENonDeterminism', 'EConflict')
+    if impl in fam and mcode not in fam and case.get('selected') is None:
+        return None     # the implementation's selection is not observable: cannot tell C01 from C04
     if mask & B.OUTCOME and (impl in fam or mcode in fam):
         return 'implementation: %s, documented: %s (C04_nd/C04_conflict/C04_ok)' % (impl, mcode)
     if impl in fam and mcode == impl and mask & (B.CONFIG | B.QUEUES | B.MEMORY | B.CTX | B.OLD | B.TRACE | B.LOGS):
